@@ -324,7 +324,7 @@ func writeEvidence(spec *Spec, o *runOpts, loadS float64, results []*HarnessResu
 		"outside_claim":                 spec.Outside,
 		"queries":                       q,
 		"solver_s":                      round2(solverS),
-		"solver":                        "z3 4.8.12 (`z3 -in`, one process, push/pop; any (error line => inconclusive)",
+		"solver":                        solverName() + "; one process per worker over a pipe, push/pop; any (error line or unknown => inconclusive",
 		"cover_goals":                   cover,
 		"reach":                         reach,
 		"harnesses":                     perH,
